@@ -4,12 +4,13 @@ C01 — caveats cannot be removed, reordered or altered without the key.
 Generic part (every `Crypto B`): what `verify` accepts has the MAC chain over its nonce and ALL its
 caveats as tail, and what it returns is carried by the accepted token or by an accepted discharge.
 The unbounded attacker statement (`no_forgery_token`, `run_no_forgery_closed`, `key_secrecy`,
-`honest_history_safe`, `mint_nonces_distinct`) is proved for the symbolic instance in
+`honest_history_safe`, `mint_nonces_distinct`, and the direct form `tail_determines_token`) is proved for the symbolic instance in
 Props/Symbolic.lean under the perfect-cryptography idealisation; that the byte encodings keep
 nonce components and caveats apart is `encNonce_injective` / `encCav_injective` (Props/C11).
 Tie: families `forge`, `legit`.
 -/
 import Macaroon.Lemmas.Token
+import Macaroon.Crypto.Symbolic
 
 namespace Macaroon.Props.C01
 open Macaroon Macaroon.Crypto Macaroon.Lemmas
@@ -65,6 +66,29 @@ theorem tail_depends_on_whole_nonce (k : B) (m : Mac B) (dms : List (Mac B)) (tr
   obtain ⟨t, hc, he⟩ := verify_tail k m dms tr cs hv
   rw [hnc] at hc; simp only [chain, Option.some.injEq] at hc
   rw [← hc] at he; simpa [finIf, hnp] using he
+
+/-! ### non-vacuity (symbolic instance; the attacker-level witnesses are in Props/Symbolic.lean) -/
+
+section examples
+open Symbolic Symbolic.Term
+
+def t0 : Mac Term := mint (atom 0) (lit [1]) [] (atom 1) false
+def ttk : Term := sealTicket (atom 5) (atom 12) (atom 11) [.isUser 3]
+def t1 : Mac Term := (add t0 [.plain (.isUser 7), .new3p [9] ttk (atom 11) (atom 13), .plain (.action 1)]).1
+def td : Mac Term := encodeState (add (mint (atom 11) ttk [9] (atom 14) true) [.plain (.confineUser 5)]).1
+
+example : verify (atom 0) t1 [td] (fun _ => []) = .ok [.isUser 7, .action 1, .confineUser 5] := by rfl
+example := verify_tail (atom 0) t1 [td] (fun _ => []) _ (by rfl)
+example := verify_returns_carried (atom 0) t1 [td] (fun _ => []) _ (by rfl)
+example := returned_is_presented (atom 0) t1 [td] (fun _ => []) _ (by rfl)
+example := tail_depends_on_whole_nonce (atom 0) t0 [] (fun _ => []) [] (by rfl) rfl rfl
+-- a caveat removed / the proof flag flipped / the version changed: rejected
+example : verify (atom 0) { t1 with cavs := t1.cavs.take 2 } [td] (fun _ => []) = .error .invalid := by rfl
+example : verify (atom 0) { t1 with cavs := t1.cavs.drop 1 } [td] (fun _ => []) = .error .unsealVK := by rfl
+example : verify (atom 0) { t0 with nonce := { t0.nonce with proof := true } } [] (fun _ => []) = .error .invalid := by rfl
+example : verify (atom 0) { t0 with nonce := { t0.nonce with version := 0 } } [] (fun _ => []) = .error .invalid := by rfl
+
+end examples
 
 end Macaroon.Props.C01
 
